@@ -912,6 +912,8 @@ func (se *SpecEnv) callSpec(c *ast.CallExpr) Value {
 			k := F.App("kreg", SInt, t)
 			F.AddDef(r, F.Eq(F.Mul(r, F.Int(fp.R)), F.Add(t, F.Mul(k, F.Int(fp.Q)))))
 			F.AddDef(r, F.And(F.Le(F.I64(0), r), F.Lt(r, F.Int(fp.Q))))
+			// reg(0) = 0: r*R = k*q with gcd(R, q) = 1 and 0 <= r < q leaves r = 0 (number theory the solver does not do)
+			F.AddDef(r, F.Or(F.Not(F.Eq(t, F.I64(0))), F.Eq(r, F.I64(0))))
 			F.SetRange(r, big.NewInt(0), new(big.Int).Sub(fp.Q, big.NewInt(1)))
 		}
 		se.fr.v.assume("reg(v) denotes the unique residue r < q with r*R = v (mod q); existence uses gcd(R,q)=1 (q is odd: checked)")
@@ -960,8 +962,8 @@ func (se *SpecEnv) callSpec(c *ast.CallExpr) Value {
 		return r
 	case "bighi": // bighi(e, i) = floor(e / 2^i) (axiomatised by the contract that uses it)
 		return F.App("big.hi", SInt, targ(0), targ(1))
-	case "bigmod": // Euclidean remainder as computed by big.Int.Mod (uninterpreted)
-		return F.App("big.mod", SInt, targ(0), targ(1))
+	case "bigmod": // Euclidean remainder as computed by big.Int.Mod
+		return bigModTerm(F, targ(0), targ(1))
 	case "bigmodinv":
 		return F.App("big.modinv", SInt, targ(0), targ(1))
 	case "toint": // the integer denoted by a ring element (Element.BigInt)
